@@ -1,3 +1,5 @@
+import os
+
 from lib.props.meta_common import ASSUME_COMMON
 
 ID = "C11"
@@ -24,5 +26,6 @@ META = dict(
         "keep/delete_intervals(simplify=True) is decided as 'equals simplify() of the simplify=False result'; "
         "simplify itself is decided by C04",
     ],
-    BUDGET={"quick": 50.0, "thorough": 900.0},
+    # the env var only exists to shorten trial runs of the thorough tier
+    BUDGET={"quick": 50.0, "thorough": float(os.environ.get("VERIF_C11_THOROUGH_BUDGET", 900.0))},
 )
